@@ -44,7 +44,7 @@ func c10Mate(g *Genome, og *Genome, id int, f1, f2 float64) (*Genome, error) {
 func c10MateSingle(g *Genome, og *Genome, id int) (*Genome, error) { return c10Mate(g, og, id, 0, 0) }
 func c10Compat(g *Genome, og *Genome, opts *neat.Options) float64  { return 1 }
 
-func vc10(minQuota, maxQuota int, mating bool, pool int) {
+func vc10(minQuota, maxQuota int, mating bool, pool int, interspecies bool) {
 	champ := tGenome("champion", 1, tmplCfg{outputs: 1, hidden: 1, genes: 3, traits: 1, params: 1, symRecur: true, symEnable: true,
 		links: [][2]int{{0, 2}, {0, 3}, {3, 2}}})
 	s0 := snap(champ)
@@ -80,7 +80,15 @@ func vc10(minQuota, maxQuota int, mating bool, pool int) {
 		}
 	}
 	pop := newPopulation()
-	babies, err := sp.reproduce(&hCtx{opts: opts}, 2, pop, []*Species{sp})
+	sorted := []*Species{sp}
+	if interspecies {
+		// a better species in front of this one: the dad is drawn from the sorted list (possibly this species again)
+		other := NewSpecies(2)
+		other.Organisms = append(other.Organisms, &Organism{Genotype: tinyGenome(70), Species: other, Fitness: 20, originalFitness: 20})
+		sorted = []*Species{other, sp}
+		opts.InterspeciesMateRate = 1
+	}
+	babies, err := sp.reproduce(&hCtx{opts: opts}, 2, pop, sorted)
 	vAssert(err == nil, "C10: reproduction succeeds")
 	if err != nil {
 		return
@@ -105,7 +113,10 @@ func vc10(minQuota, maxQuota int, mating bool, pool int) {
 	vReach("end")
 }
 
-func VC10_Mutation_Quick()    { vc10(5, 7, false, 1) }
-func VC10_Mating_Quick()      { vc10(6, 6, true, 2) }
-func VC10_Mutation_Thorough() { vc10(4, 9, false, 2) }
-func VC10_Mating_Thorough()   { vc10(6, 7, true, 2) }
+func VC10_Mutation_Quick()    { vc10(5, 7, false, 1, false) }
+func VC10_Mating_Quick()      { vc10(6, 6, true, 2, false) }
+func VC10_Mutation_Thorough() { vc10(4, 9, false, 2, false) }
+func VC10_Mating_Thorough()   { vc10(6, 7, true, 2, false) }
+
+// the interspecies mating route (the dad comes from another species of the sorted list)
+func VC10_Interspecies_Thorough() { vc10(6, 6, true, 2, true) }
